@@ -58,6 +58,46 @@ Extensions used by C18 (karyogram.py; each is off unless the spec asks for it, e
 * spec["allow_defaults"] = True: parameters may have constant defaults (every translated call passes all arguments).
 * spec["rhs_first_stores"] = True: `x[i] = e` is emitted as `SSetPath` too (e evaluated before i, as Python does;
   the older `SSetIdx` evaluates i first, which only matters when both can raise).
+
+Extensions used by C15 / C02 (second translation-validation pass; all purely additive):
+* a *top-level statement slice* of a function or method, third element of a spec function
+  {"name", "top": True, "in_class": C or absent, "start": {"assign": v} | {"if_name": v} | {"with_open": True},
+   "stop": {"before_if_raise": True} | {"through_assign": v} | {"before_return": True}, "params": [...], "result": v or None,
+   "self_attrs": {"names": "self_names"}, "class_chain": [(file, Class), ...], "text": True/False (overrides spec["text"]),
+   "write": {"method": "write", "stream": "$out"}, "ext_str": True}:
+  the consecutive top-level statements from the first one matching "start" up to "stop", as a synthetic function that
+  returns `result`.  "self_attrs": a READ of `self.<attr>` becomes a read of the named parameter (by value: the slice may
+  not store into an attribute of self, call a method of self or use `self` otherwise - rejected); "class_chain" must list
+  the class of the method and all its base classes up to ABC/object, none of which may define the attribute as a
+  property / class attribute or define __getattr__ / __getattribute__ / __setattr__.
+* containers: `x = Counter()` (the module must have `from collections import Counter` and bind the name in no other way)
+  and `x = set()`: `ECounter` / `ESet`.  Such a name must be bound exactly once in the function, and may only occur as
+  `x[k]` (read, `x[k] = e`, `x[k] += e`: Counter), `k in x` / `k not in x`, `x.add(e)` (set) - so the value never reaches
+  ==, len(), iteration, a call or the result.
+* `x[k] op= e` for a name x and a name / constant k: `SSetPath x [k] (x[k] op e)` (k has no effect and is read twice).
+* an f-string without conversions / format specs (text mode only): `EFmt`, parts left to right; str / int parts are
+  interpreted, any other value goes to the untranslated "$str": Section variable `ext_str`, declared for the whole module
+  (spec["ext_str"] = True) or from one slice on (slice key "ext_str": True opens `Section GenStr` there, so that the text
+  and the arity of the functions translated before it do not change).
+* slice key "write" with start {"with_open": True}: the slice is the BODY of the function's one top-level
+  `with open(<names / constants>) as f:` statement (open() itself, i.e. the file system, is not modelled); the statement
+  `f.<method>(e)` appends e to the list parameter <stream>; any other use of f is rejected (f is not a name of the slice).
+* a top-level slice is not entered into the function table (nothing can call it).
+* in a top-level slice, a list comprehension `[elt for v in it]` with one generator, no condition, v a plain name, as the
+  whole right-hand side of `x = [...]` (x occurring in neither elt nor it): `x = []; for _cN in it: x.append(elt[v := _cN])`
+  with a fresh name _cN (the comprehension variable is local to the comprehension in Python).
+* `x.attr = e`, `x[i]...[k].attr = e` for a field of a translated class (`SSetAttr`: e first, then the indices; the
+  object and the containers along the path are rebuilt - objects are values).  When x is the loop variable of an enclosing
+  `for x in <name>` the store goes THROUGH the loop: the loop is emitted over enumerate(<name>) with a hidden index `_tN[0]`
+  and the store as `<name>[index][i]...[k].attr = e` followed by `x = <name>[index]` (the alias the loop variable is in
+  Python), provided neither <name> nor x is rebound inside the loop (any other mutation of <name> while it is iterated is
+  rejected as before).  By-value reading: the elements of <name> - and the objects stored into - must not be shared with
+  another position of <name> or with another variable (for _prepare_coords: one fresh list per map file, one fresh
+  GeneticMarker per line; the sealed last marker of a list is the prev_coord of no retained marker).
+* in a top-level slice the parameters are the slice's free variables: one may be both rebound and mutated (the final
+  values of the parameters are the variables' values at the end of the slice; nothing can call a slice).
+* spec["ext_dotted_consts"] = {"np.iinfo(np.int32).max": 2147483647}: the expression, compared by its unparsed text, is
+  that integer literal (checked against the running numpy by the harness relation).
 """
 import ast
 import os
@@ -109,6 +149,10 @@ class Ctx:
         self.with_open = bool(spec.get("with_open"))
         self.allow_defaults = bool(spec.get("allow_defaults"))
         self.rhs_first = bool(spec.get("rhs_first_stores"))
+        self.ext_str = bool(spec.get("ext_str"))
+        self.dotted_consts = dict(spec.get("ext_dotted_consts", {}))
+        self.counter_ok = False         # set per function: the module imports collections.Counter under that name
+        self.set_ok = False             # ... and does not bind the name `set`
 
 
 def parse_state_class(node, cid, attrs):
@@ -184,9 +228,14 @@ class FunInfo:
 
 
 class FunTranslator:
-    def __init__(self, node, classes, funs, strtab=None, ctx=None, objects=None):
+    def __init__(self, node, classes, funs, strtab=None, ctx=None, objects=None, text=None, writes=None, slice_vars=False):
         self.node, self.classes, self.funs = node, classes, funs
         self.ctx = ctx or Ctx()
+        self.text = self.ctx.text if text is None else bool(text)   # string literals by code points in this function
+        self.writes = dict(writes or {})     # receiver name -> (method, stream): `receiver.method(e)` appends e to stream
+        self.containers = {}                 # name -> "counter" | "set" (see collect_containers)
+        self.slice_vars = bool(slice_vars)   # a top-level slice: parameters = free variables (may be rebound and mutated)
+        self.through = {}                    # loop variable -> (iterated name, index expression): stores go through the loop
         self.objects = dict(objects or {})   # name -> state class name (the receiver of method calls)
         a = node.args
         defaults_ok = not a.defaults or (self.ctx.allow_defaults and all(isinstance(d, ast.Constant) for d in a.defaults))
@@ -256,6 +305,13 @@ class FunTranslator:
         return None
 
     def expr(self, e):
+        if self.ctx.dotted_consts and isinstance(e, ast.Attribute):
+            txt = ast.unparse(e)
+            if txt in self.ctx.dotted_consts:
+                root = txt.split(".")[0].split("(")[0]
+                if root in self.params or root in self.assigned:
+                    _bad(e, f"{root} is rebound: {txt} is not the declared constant")
+                return f"(EInt {cz(int(self.ctx.dotted_consts[txt]))})"
         if isinstance(e, ast.Constant):
             if e.value is None:
                 return "ENone"
@@ -264,7 +320,7 @@ class FunTranslator:
             if isinstance(e.value, int):
                 return f"(EInt {cz(e.value)})"
             if isinstance(e.value, str):
-                if self.ctx.text:
+                if self.text:
                     return f"(EText {clist(cz(ord(c)) for c in e.value)})"
                 return f"(EStr {cz(self.strtab.setdefault(e.value, 1000 + len(self.strtab)))})"
             if isinstance(e.value, float):
@@ -323,6 +379,18 @@ class FunTranslator:
                 hi = f"(Some {self.expr(e.slice.upper)})" if e.slice.upper is not None else "None"
                 return f"(ESlice {self.expr(e.value)} {lo} {hi})"
             return f"(EIndex {self.expr(e.value)} {self.expr(e.slice)})"
+        if isinstance(e, ast.JoinedStr):
+            if not self.text:
+                _bad(e, "f-string outside text mode")
+            parts = []
+            for v in e.values:
+                if isinstance(v, ast.Constant) and isinstance(v.value, str):
+                    parts.append(f"(EText {clist(cz(ord(c)) for c in v.value)})")
+                elif isinstance(v, ast.FormattedValue) and v.conversion == -1 and v.format_spec is None:
+                    parts.append(self.expr(v.value))
+                else:
+                    _bad(e, "f-string with a conversion or a format spec")
+            return f"(EFmt {clist(parts)})"
         if isinstance(e, ast.Tuple):
             return f"(ETuple {clist(self.expr(x) for x in e.elts)})"
         if isinstance(e, ast.List):
@@ -362,7 +430,7 @@ class FunTranslator:
                 if f.id == "range" and len(e.args) == 1:
                     return f"(ERange {self.expr(e.args[0])})"
                 if f.id == "int" and len(e.args) == 1:
-                    if self.ctx.text:
+                    if self.text:
                         _bad(e, "int() with strings as text: declare int in ext_builtins (EToInt does not parse text)")
                     return f"(EToInt {self.expr(e.args[0])})"
                 if f.id == "abs" and len(e.args) == 1:
@@ -501,6 +569,21 @@ class FunTranslator:
             _bad(n, f"{n.id} holds an element of {root}, which is mutated (key {key!r}) inside the loop, and is read "
                     f"in a way that could observe the old value")
 
+    @staticmethod
+    def stores_through(loop):
+        """does the body of `for x in ...` contain `x[i]...[k].attr = e`?"""
+        x = loop.target.id
+        for n in ast.walk(loop):
+            if isinstance(n, ast.Assign):
+                for t in n.targets:
+                    if isinstance(t, ast.Attribute):
+                        r = t.value
+                        while isinstance(r, ast.Subscript):
+                            r = r.value
+                        if isinstance(r, ast.Name) and r.id == x:
+                            return True
+        return False
+
     def call_stmt(self, dst, call):
         """dst = f(args) for a translated f, with write-back of the parameters f mutates."""
         fi, cargs = self.call_target(call)
@@ -591,6 +674,8 @@ class FunTranslator:
                 for st in reversed(out[:-1]):
                     r = f"(SSeq {st}\n {r})"
                 return r
+            if isinstance(t, ast.Name) and t.id in self.containers:
+                return f"(SAssign {cstr(t.id)} {'ECounter' if self.containers[t.id] == 'counter' else 'ESet'})"
             if isinstance(t, ast.Name):
                 if self.np_random(s.value, "choice", 1):
                     self.use_oracle("$choices")
@@ -645,7 +730,44 @@ class FunTranslator:
                         for i, a in enumerate(ci.fields)]
                 self.mutated.add(0)
                 return f"(SAssign {cstr(obj)} (ENew {cz(ci.cid)} {clist(flds)}))"
+            if isinstance(t, ast.Attribute):
+                # x[i]...[k].attr = e for a field of a translated class
+                path, root = [], t.value
+                while isinstance(root, ast.Subscript):
+                    if isinstance(root.slice, ast.Slice):
+                        _bad(s, "attribute store through a slice")
+                    path.append(root.slice)
+                    root = root.value
+                if not isinstance(root, ast.Name) or root.id in self.objects:
+                    _bad(s, "attribute store on something that is not name[i]...[k]")
+                path.reverse()
+                self.name(root)
+                cands = self.getter_cands(t.attr, t, False)
+                idx = [self.expr(i) for i in path]
+                rhs = self.expr(s.value)
+                if root.id in self.through:
+                    nm, ix = self.through[root.id]
+                    saved = self.iterating
+                    self.iterating = [x for x in saved if x != nm]
+                    try:
+                        self.mark_mutated(nm, s)
+                    finally:
+                        self.iterating = saved
+                    return (f"(SSeq (SSetAttr {cstr(nm)} {clist([ix] + idx)} {cands} {rhs})\n"
+                            f" (SAssign {cstr(root.id)} (EIndex (EVar {cstr(nm)}) {ix})))")
+                self.mark_mutated(root.id, s)
+                return f"(SSetAttr {cstr(root.id)} {clist(idx)} {cands} {rhs})"
             _bad(s, "assignment target")
+        if isinstance(s, ast.AugAssign) and isinstance(s.target, ast.Subscript) and isinstance(s.target.value, ast.Name) \
+                and isinstance(s.target.slice, (ast.Name, ast.Constant)):
+            # x[k] op= e with k a name or a constant: x[k] = x[k] op e (reading k twice has no effect)
+            x = s.target.value.id
+            self.name(s.target.value)
+            self.mark_mutated(x, s)
+            load = ast.Subscript(value=ast.Name(id=x, ctx=ast.Load(), lineno=s.lineno), slice=s.target.slice,
+                                 ctx=ast.Load(), lineno=s.lineno)
+            fake = ast.BinOp(left=load, op=s.op, right=s.value, lineno=s.lineno)
+            return f"(SSetPath {cstr(x)} {clist([self.expr(s.target.slice)])} {self.expr(fake)})"
         if isinstance(s, ast.AugAssign):
             if not isinstance(s.target, ast.Name):
                 _bad(s, "augmented assignment target")
@@ -666,6 +788,19 @@ class FunTranslator:
                     _bad(s, f"{v.func.id}() call shape")
                 self.use_oracle(o["stream"])
                 return f"(SAppend (LVar {cstr(o['stream'])}) (ETuple {clist(self.expr(v.args[i]) for i in o['args'])}))"
+            if isinstance(v, ast.Call) and isinstance(v.func, ast.Attribute) and isinstance(v.func.value, ast.Name) \
+                    and v.func.value.id in self.writes and v.func.value.id not in self.params \
+                    and v.func.value.id not in self.assigned:
+                meth, stream = self.writes[v.func.value.id]
+                if v.func.attr != meth or len(v.args) != 1 or v.keywords:
+                    _bad(s, f"{v.func.value.id}: only {v.func.value.id}.{meth}(e) is translated")
+                self.use_oracle(stream)
+                return f"(SAppend (LVar {cstr(stream)}) {self.expr(v.args[0])})"
+            if isinstance(v, ast.Call) and isinstance(v.func, ast.Attribute) and v.func.attr == "add" \
+                    and isinstance(v.func.value, ast.Name) and self.containers.get(v.func.value.id) == "set" \
+                    and len(v.args) == 1 and not v.keywords:
+                self.mark_mutated(v.func.value.id, s)
+                return f"(SSetAdd {cstr(v.func.value.id)} {self.expr(v.args[0])})"
             if isinstance(v, ast.Call) and isinstance(v.func, ast.Attribute) and v.func.attr == "append" \
                     and len(v.args) == 1 and not v.keywords:
                 lv, nm = self.lval(v.func.value, "append target")
@@ -713,6 +848,31 @@ class FunTranslator:
             self.iterating.pop()
             unpack = [f"(SAssign {cstr(x.id)} (EIndex (EVar {cstr(tmp)}) (EInt {k})))" for k, x in enumerate(t.elts)]
             return f"(SFor {cstr(tmp)} {it}\n (SSeq {unpack[0]} (SSeq {unpack[1]}\n {body})))"
+        if isinstance(s, ast.For) and isinstance(s.target, ast.Name) and not s.orelse and self.stores_through(s):
+            # for x in NAME with `x[..].attr = e` in the body: iterate over enumerate(NAME), stores go to NAME[index]
+            x = s.target.id
+            if not isinstance(s.iter, ast.Name):
+                _bad(s, f"{x}[..].attr is stored into, and the loop does not iterate over a plain name")
+            nm = s.iter.id
+            self.name(s.iter)
+            for n in ast.walk(s):
+                if isinstance(n, ast.Name) and n.id in (nm, x) and not isinstance(n.ctx, ast.Load) and n is not s.target:
+                    _bad(n, f"{n.id} is rebound inside a loop whose variable is stored into")
+                if isinstance(n, ast.For) and n is not s and self.iter_root(n.iter) in (nm, x) and self.stores_through(n):
+                    _bad(n, "nested loops with stores through the loop variable")
+            if x in self.through or x == nm:
+                _bad(s, "nested loops with stores through the same loop variable")
+            tmp = self.fresh()
+            ix = f"(EIndex (EVar {cstr(tmp)}) (EInt 0))"
+            it = f"(EEnumerate {self.expr(s.iter)})"
+            self.through[x] = (nm, ix)
+            self.iterating.append(nm)
+            self.for_stack.append(s)
+            body = self.block(s.body)
+            self.for_stack.pop()
+            self.iterating.pop()
+            del self.through[x]
+            return f"(SFor {cstr(tmp)} {it}\n (SSeq (SAssign {cstr(x)} (EIndex (EVar {cstr(tmp)}) (EInt 1)))\n {body}))"
         if isinstance(s, ast.For):
             if s.orelse or not isinstance(s.target, ast.Name):
                 _bad(s, "for-else / non-name loop target")
@@ -793,6 +953,62 @@ class FunTranslator:
                 names.append(t)
         return names
 
+    def container_kind(self, v):
+        if isinstance(v, ast.Call) and isinstance(v.func, ast.Name) and not v.args and not v.keywords \
+                and v.func.id not in self.params and v.func.id not in self.assigned:
+            if v.func.id == "Counter" and self.ctx.counter_ok:
+                return "counter"
+            if v.func.id == "set" and self.ctx.set_ok:
+                return "set"
+        return None
+
+    def collect_containers(self):
+        """names bound (once) by `x = Counter()` / `x = set()`; every other occurrence must be x[k] (Counter), `k in x`,
+        `k not in x` or the statement `x.add(e)` (set)"""
+        kinds = {}
+        for n in ast.walk(self.node):
+            if isinstance(n, ast.Assign) and len(n.targets) == 1 and isinstance(n.targets[0], ast.Name) \
+                    and self.container_kind(n.value):
+                if n.targets[0].id in kinds:
+                    _bad(n, f"{n.targets[0].id} is bound to a Counter / set twice")
+                kinds[n.targets[0].id] = self.container_kind(n.value)
+        if not kinds:
+            return {}
+        parent = {}
+        for n in ast.walk(self.node):
+            for c in ast.iter_child_nodes(n):
+                parent[c] = n
+        for nm, kind in kinds.items():
+            if nm in self.params:
+                _bad(self.node, f"{nm} is a parameter and is rebound to a Counter / set")
+            binds = 0
+            for n in ast.walk(self.node):
+                if not (isinstance(n, ast.Name) and n.id == nm):
+                    continue
+                pt = parent.get(n)
+                if not isinstance(n.ctx, ast.Load):
+                    if not (isinstance(n.ctx, ast.Store) and isinstance(pt, ast.Assign) and pt.targets == [n]
+                            and self.container_kind(pt.value) == kind):
+                        _bad(n, f"{nm} (a Counter / set) is bound in another way")
+                    binds += 1
+                    continue
+                ok = False
+                if kind == "counter" and isinstance(pt, ast.Subscript) and pt.value is n \
+                        and not isinstance(pt.slice, ast.Slice) and not isinstance(pt.ctx, ast.Del):
+                    ok = True
+                elif kind == "set" and isinstance(pt, ast.Compare) and len(pt.ops) == 1 \
+                        and isinstance(pt.ops[0], (ast.In, ast.NotIn)) and pt.comparators[0] is n:
+                    ok = True
+                elif kind == "set" and isinstance(pt, ast.Attribute) and pt.attr == "add" and pt.value is n \
+                        and isinstance(parent.get(pt), ast.Call) and parent[pt].func is pt \
+                        and isinstance(parent.get(parent[pt]), ast.Expr):
+                    ok = True
+                if not ok:
+                    _bad(n, f"{nm} is a {kind}: only x[k] (Counter) / `k in x`, x.add(e) (set) are translated")
+            if binds != 1:
+                _bad(self.node, f"{nm} (a Counter / set) is not bound exactly once")
+        return kinds
+
     def collect_aliases(self):
         al, src = set(), set()
 
@@ -822,6 +1038,7 @@ class FunTranslator:
         self.alias_names = self.collect_aliases()
         self.assigned_params = set()
         self.assigned = self.collect_assigned()
+        self.containers = self.collect_containers()
         self.locals = list(self.assigned)
         self.iterating = []
         real = [st for st in self.node.body if not (isinstance(st, ast.Expr) and isinstance(st.value, ast.Constant))]
@@ -833,7 +1050,7 @@ class FunTranslator:
             self.mutated.add(len(self.params) - 1)
         # a parameter that is both rebound and mutated in place has no by-value reading
         for i in list(self.mutated):
-            if self.params[i] in self.assigned_params:
+            if self.params[i] in self.assigned_params and not self.slice_vars:
                 _bad(self.node, f"parameter {self.params[i]} is both rebound and mutated")
         text = (f"Definition src_{self.node.name} : fundef :=\n  mkfun {clist(cstr(p) for p in self.params)} "
                 f"{clist(cstr(x) for x in self.locals)}\n {body}.\n")
@@ -917,6 +1134,202 @@ def slice_while(fn, sl):
                            lineno=fn.lineno)
 
 
+def slice_top(fn, sl):
+    """Consecutive top-level statements of `fn` as a synthetic function (see the module docstring, "top-level statement
+    slice").  Returns (FunctionDef, writes) where writes maps the name bound by a stripped `with open(...) as f` to the
+    (method, stream) its calls are translated to."""
+    import copy
+
+    body = list(fn.body)
+    a, b = sl["start"], sl["stop"]
+
+    def is_start(st):
+        if "assign" in a:
+            return (isinstance(st, ast.Assign) and len(st.targets) == 1 and isinstance(st.targets[0], ast.Name)
+                    and st.targets[0].id == a["assign"])
+        if "if_name" in a:
+            return isinstance(st, ast.If) and isinstance(st.test, ast.Name) and st.test.id == a["if_name"]
+        if a.get("with_open"):
+            return isinstance(st, ast.With)
+        return False
+
+    starts = [i for i, st in enumerate(body) if is_start(st)]
+    if len(starts) != 1:
+        _bad(fn, f"{fn.name}: the start of the slice {sl['name']} is not found exactly once at the top level")
+    i0 = starts[0]
+    if b.get("before_if_raise"):
+        js = [j for j in range(i0 + 1, len(body)) if isinstance(body[j], ast.If)]
+        if not js:
+            _bad(fn, f"{fn.name}: no top-level if after the start of the slice {sl['name']}")
+        st = body[js[0]]
+        if not (len(st.body) == 1 and isinstance(st.body[0], ast.Raise) and not st.orelse):
+            _bad(st, f"{fn.name}: the if statement that ends the slice {sl['name']} is not `if ...: raise ...`")
+        end = js[0]
+    elif "through_assign" in b:
+        js = [j for j in range(i0, len(body)) if isinstance(body[j], ast.Assign) and len(body[j].targets) == 1
+              and isinstance(body[j].targets[0], ast.Name) and body[j].targets[0].id == b["through_assign"]]
+        if len(js) != 1:
+            _bad(fn, f"{fn.name}: `{b['through_assign']} = ...` is not found exactly once after the start of {sl['name']}")
+        end = js[0] + 1
+    elif b.get("before_return"):
+        if not isinstance(body[-1], ast.Return) or i0 >= len(body) - 1:
+            _bad(fn, f"{fn.name}: the function does not end with a return statement")
+        end = len(body) - 1
+    else:
+        _bad(fn, f"slice {sl['name']}: no stop marker")
+    stmts = [copy.deepcopy(st) for st in body[i0:end]]
+    if not stmts:
+        _bad(fn, f"{fn.name}: the slice {sl['name']} is empty")
+    writes = {}
+    if a.get("with_open"):
+        w = stmts[0]
+        ok = (len(w.items) == 1 and isinstance(w.items[0].optional_vars, ast.Name)
+              and isinstance(w.items[0].context_expr, ast.Call) and isinstance(w.items[0].context_expr.func, ast.Name)
+              and w.items[0].context_expr.func.id == "open" and not w.items[0].context_expr.keywords
+              and all(isinstance(x, (ast.Name, ast.Constant)) for x in w.items[0].context_expr.args)
+              and "write" in sl)
+        if not ok:
+            _bad(w, f"{fn.name}: the slice {sl['name']} does not start with `with open(<names/constants>) as f:`")
+        if any(isinstance(n, ast.Name) and n.id == "open" and not isinstance(n.ctx, ast.Load) for n in ast.walk(fn)) \
+                or "open" in [x.arg for x in fn.args.args]:
+            _bad(w, f"{fn.name}: the name open is rebound")
+        writes[w.items[0].optional_vars.id] = (sl["write"]["method"], sl["write"]["stream"])
+        stmts = list(w.body) + stmts[1:]
+    stmts = desugar_listcomps(stmts, {n.id for n in ast.walk(fn) if isinstance(n, ast.Name)}
+                              | {x.arg for x in fn.args.args})
+    attrs = dict(sl.get("self_attrs", {}))
+    if attrs:
+        selfname = fn.args.args[0].arg if fn.args.args else None
+        if selfname is None or selfname in sl["params"]:
+            _bad(fn, f"{fn.name}: no self parameter")
+
+        class R(ast.NodeTransformer):
+            def visit_Attribute(self, n):
+                if isinstance(n.value, ast.Name) and n.value.id == selfname and n.attr in attrs \
+                        and isinstance(n.ctx, ast.Load):
+                    return ast.copy_location(ast.Name(id=attrs[n.attr], ctx=ast.Load()), n)
+                return self.generic_visit(n)
+
+        stmts = [R().visit(st) for st in stmts]
+        for st in stmts:
+            for n in ast.walk(st):
+                if isinstance(n, ast.Name) and n.id == selfname:
+                    _bad(n, f"{fn.name}: {selfname} is used other than by reading {sorted(attrs)}")
+                if isinstance(n, ast.Name) and n.id in attrs.values() and not isinstance(n.ctx, ast.Load):
+                    _bad(n, f"{fn.name}: the name {n.id} (standing for an attribute of {selfname}) is bound in the slice")
+    if sl.get("result"):
+        stmts.append(ast.Return(value=ast.Name(id=sl["result"], ctx=ast.Load(), lineno=stmts[-1].lineno),
+                                lineno=stmts[-1].lineno))
+    args = ast.arguments(posonlyargs=[], args=[ast.arg(arg=p) for p in sl["params"]], vararg=None, kwonlyargs=[],
+                         kw_defaults=[], kwarg=None, defaults=[])
+    node = ast.FunctionDef(name=sl["name"], args=args, body=stmts, decorator_list=[], lineno=fn.lineno)
+    ast.fix_missing_locations(node)
+    return node, writes
+
+
+def desugar_listcomps(stmts, used):
+    """`x = [elt for v in it]` (one generator, no condition, v a name; x in neither elt nor it) as
+    `x = []; for _cN in it: x.append(elt[v := _cN])`, recursively in the bodies of if / for / while / with"""
+    out = []
+    for st in stmts:
+        for fld in ("body", "orelse"):
+            if isinstance(st, (ast.If, ast.For, ast.While, ast.With)) and getattr(st, fld, None):
+                setattr(st, fld, desugar_listcomps(getattr(st, fld), used))
+        if isinstance(st, ast.Assign) and len(st.targets) == 1 and isinstance(st.targets[0], ast.Name) \
+                and isinstance(st.value, ast.ListComp):
+            lc, x = st.value, st.targets[0].id
+            g = lc.generators[0]
+            inner = [n for part in (lc.elt, g.iter) for n in ast.walk(part)]
+            ok = (len(lc.generators) == 1 and not g.ifs and not g.is_async and isinstance(g.target, ast.Name)
+                  and not any(isinstance(n, (ast.Lambda, ast.ListComp, ast.SetComp, ast.DictComp, ast.GeneratorExp,
+                                             ast.NamedExpr)) for n in inner)
+                  and not any(isinstance(n, ast.Name) and n.id == x for n in inner)
+                  and not any(isinstance(n, ast.Name) and n.id == g.target.id for n in ast.walk(g.iter)))
+            if not ok:
+                _bad(st, "list comprehension outside the translated form")
+            k = 1
+            while f"_c{k}" in used:
+                k += 1
+            fresh = f"_c{k}"
+            used.add(fresh)
+            v = g.target.id
+
+            class Ren(ast.NodeTransformer):
+                def visit_Name(self, n):
+                    return ast.copy_location(ast.Name(id=fresh, ctx=n.ctx), n) if n.id == v else n
+
+            elt = Ren().visit(lc.elt)
+            init = ast.copy_location(ast.Assign(targets=[ast.Name(id=x, ctx=ast.Store())],
+                                                value=ast.List(elts=[], ctx=ast.Load())), st)
+            app = ast.Expr(value=ast.Call(func=ast.Attribute(value=ast.Name(id=x, ctx=ast.Load()), attr="append",
+                                                             ctx=ast.Load()), args=[elt], keywords=[]))
+            loop = ast.copy_location(ast.For(target=ast.Name(id=fresh, ctx=ast.Store()), iter=g.iter, body=[app],
+                                             orelse=[]), st)
+            out += [init, loop]
+        else:
+            out.append(st)
+    return out
+
+
+def check_plain_attrs(classdefs, attrs):
+    """classdefs: the class of a method and all its bases (ClassDef nodes, in order); none of them may make one of
+    `attrs` anything but a plain instance attribute"""
+    names = [c.name for c in classdefs]
+    for k, c in enumerate(classdefs):
+        if c.keywords or c.decorator_list:
+            _bad(c, f"class {c.name} has a metaclass / decorators")
+        for bnode in c.bases:
+            bn = bnode.id if isinstance(bnode, ast.Name) else None
+            if bn not in ("ABC", "object") and bn not in names[k + 1:]:
+                _bad(c, f"class {c.name}: base class {ast.dump(bnode) if bn is None else bn} is not in class_chain")
+        for item in c.body:
+            if isinstance(item, (ast.FunctionDef, ast.AsyncFunctionDef)):
+                if item.name in ("__getattr__", "__getattribute__", "__setattr__", "__slots__") or item.name in attrs:
+                    _bad(item, f"class {c.name} defines {item.name}")
+            elif isinstance(item, (ast.Assign, ast.AnnAssign, ast.AugAssign)):
+                tg = item.targets if isinstance(item, ast.Assign) else [item.target]
+                for t in tg:
+                    for x in ast.walk(t):
+                        if isinstance(x, ast.Name) and (x.id in attrs or x.id == "__slots__"):
+                            _bad(item, f"class {c.name} has the class attribute {x.id}")
+            elif isinstance(item, ast.Expr) and isinstance(item.value, ast.Constant):
+                continue
+            else:
+                _bad(item, f"class {c.name}: unsupported member")
+
+
+def module_binds(tree, name):
+    """does the module bind `name` at its top level (def / class / assignment / import)?"""
+    for n in tree.body:
+        if isinstance(n, (ast.FunctionDef, ast.AsyncFunctionDef, ast.ClassDef)) and n.name == name:
+            return True
+        if isinstance(n, (ast.Import, ast.ImportFrom)):
+            if any((al.asname or al.name.split(".")[0]) == name for al in n.names):
+                return True
+        elif not isinstance(n, (ast.FunctionDef, ast.AsyncFunctionDef, ast.ClassDef)):
+            for x in ast.walk(n):
+                if isinstance(x, ast.Name) and x.id == name and not isinstance(x.ctx, ast.Load):
+                    return True
+    return False
+
+
+def imports_counter(tree):
+    imp = [n for n in tree.body if isinstance(n, ast.ImportFrom) and n.module == "collections" and n.level == 0
+           and any(al.name == "Counter" and al.asname is None for al in n.names)]
+    others = 0
+    for n in tree.body:
+        if n in imp:
+            others += sum(1 for al in n.names if (al.asname or al.name) == "Counter") - 1
+        elif isinstance(n, (ast.Import, ast.ImportFrom)):
+            others += sum(1 for al in n.names if (al.asname or al.name.split(".")[0]) == "Counter" or al.name == "*")
+        elif isinstance(n, (ast.FunctionDef, ast.AsyncFunctionDef, ast.ClassDef)):
+            others += n.name == "Counter"
+        else:
+            others += sum(1 for x in ast.walk(n) if isinstance(x, ast.Name) and x.id == "Counter"
+                          and not isinstance(x.ctx, ast.Load))
+    return len(imp) == 1 and others == 0
+
+
 def translate(spec, repo):
     """spec = {"module": "Gen_X", "classes": [(relfile, ClassName, id)], "functions": [(relfile, fname)]}
     Functions are translated in the order given; each may call the earlier ones.  Optional keys: see the module
@@ -972,6 +1385,8 @@ def translate(spec, repo):
     extra += [("$c." + d, "extc_" + cident(d), f"{d}(...)") for d in ctx.ext_dotted]
     if ctx.float_add:
         extra.append(("$fadd", "fadd", "a + b with a float literal operand (binary64 addition is not modelled)"))
+    if ctx.ext_str:
+        extra.append(("$str", "ext_str", "str(v) / format(v) of a value that is neither a string nor an int, in an f-string"))
     if len({v for _, v, _ in extra}) != len(extra):
         raise Untranslatable("two untranslated operations share a Section variable name")
     section = ctx.float_div or bool(externals) or bool(extra)
@@ -997,10 +1412,49 @@ def translate(spec, repo):
         out.append(f"Definition ft_base : ftable := {base}.")
         out.append("")
         prev_ft = "ft_base"
+    late_str = False
     for k, item in enumerate(spec["functions"]):
         rel, fname = item[0], item[1]
         objects = {}
-        if "." in fname:
+        text_mode, writes = None, None
+        if len(item) > 2 and item[2].get("ext_str") and not late_str:
+            # from here on str(v) / format(v) of a value that is neither a string nor an int is the Section variable
+            # ext_str; the functions translated so far stay outside the section (their text does not change)
+            if ctx.ext_str:
+                raise Untranslatable("ext_str both for the whole module and for one function")
+            late_str = True
+            out.append("Section GenStr.")
+            out.append("(* str(v) / format(v) of a value that is neither a string nor an int, in an f-string: not translated; "
+                       "any function of the value *)")
+            out.append("Variable ext_str : list val -> res val.")
+            out.append(f"Definition ft_str (fuel : nat) : ftable := ft_add {cstr('$str')} (ext_fn ext_str) ({prev_ft}).")
+            out.append("")
+            prev_ft = "ft_str fuel"
+        ctx.counter_ok = imports_counter(tree(rel))
+        ctx.set_ok = not module_binds(tree(rel), "set")
+        if len(item) > 2 and item[2].get("top"):
+            sl = item[2]
+            if sl.get("in_class"):
+                cnode = top(rel, ast.ClassDef, sl["in_class"])
+                cands = [m for m in cnode.body if isinstance(m, ast.FunctionDef) and m.name == fname]
+                if len(cands) != 1 or cands[0].decorator_list:
+                    raise Untranslatable(f"{rel}: method {sl['in_class']}.{fname} not found exactly once (undecorated)")
+                node = cands[0]
+                if sl.get("self_attrs"):
+                    chain = [top(r, ast.ClassDef, c) for r, c in sl.get("class_chain", [])]
+                    if not chain or chain[0] is not cnode:
+                        raise Untranslatable(f"{fname}: class_chain must start with the class of the method")
+                    check_plain_attrs(chain, set(sl["self_attrs"]))
+            else:
+                node = top(rel, ast.FunctionDef, fname)
+                if sl.get("self_attrs"):
+                    raise Untranslatable(f"{fname}: self_attrs on a function that is not a method")
+            node, writes = slice_top(node, sl)
+            fname = node.name
+            text_mode = sl.get("text")
+            if fname in funs:
+                raise Untranslatable(f"{fname}: the name is already taken by a translated function")
+        elif "." in fname:
             cname, mname = fname.split(".", 1)
             ci = classes.get(cname)
             if ci is None or not ci.state:
@@ -1025,17 +1479,26 @@ def translate(spec, repo):
                 else:
                     node = slice_function(node, item[2])
                 fname = node.name
-        text, fi = FunTranslator(node, classes, funs, strtab, ctx, objects).run()
-        funs[fname] = fi
+        is_top = len(item) > 2 and bool(item[2].get("top"))
+        text, fi = FunTranslator(node, classes, funs, strtab, ctx, objects, text=text_mode, writes=writes,
+                                 slice_vars=is_top).run()
+        if not is_top:
+            funs[fname] = fi        # a top-level slice is not callable by the functions translated after it
         if objects and "." in item[1]:
             ctx.method_owner[fname] = item[1].split(".", 1)[0]
         out.append(f"(* {rel}: {item[1] if '.' in item[1] else fname}({', '.join(fi.params)}); mutates parameters {sorted(fi.mutated)} *)")
         out.append(text)
         out.append(f"Definition fn_{fname} (fuel : nat) : list val -> res (val * list val) :=\n"
                    f"  run_fun ({prev_ft}) src_{fname} fuel.")
+        if is_top:
+            out.append("")      # not entered into the function table
+            continue
         out.append(f"Definition ft_{k} (fuel : nat) : ftable := ft_add {cstr(fname)} (fn_{fname} fuel) ({prev_ft}).")
         out.append("")
         prev_ft = f"ft_{k} fuel"
+    if late_str:
+        out.append("End GenStr.")
+        out.append("")
     if section:
         out.append("End Gen.")
         out.append("")
